@@ -25,6 +25,11 @@ def _dimension(U, dim):
     return out
 
 
+def _sym(e, case):
+    """the spelling of the user symbol: "foo"/"qux", or the candidate name TLC chose for foo (case["uname"])"""
+    return case["uname"] if e["sym"] == "foo" and case.get("uk") else e["sym"]
+
+
 def _step(U, regs, e, case, old):
     unyt = U["unyt"]
     D = U["defs"]
@@ -42,16 +47,16 @@ def _step(U, regs, e, case, old):
                 val = unyt.unyt_quantity(coef, text)
             else:
                 val = unyt.unyt_quantity(coef, text, registry=reg)
-            U["define_unit"](e["sym"], val, prefixable=bool(e["pfx"]), registry=reg)
+            U["define_unit"](_sym(e, case), val, prefixable=bool(e["pfx"]), registry=reg)
         elif e["op"] == "add":
-            reg.add(e["sym"], float(D.eval_gens(e["gens"])), _dimension(U, e["dim"]), prefixable=bool(e["pfx"]))
+            reg.add(_sym(e, case), float(D.eval_gens(e["gens"])), _dimension(U, e["dim"]), prefixable=bool(e["pfx"]))
         elif e["op"] == "modify":
             if e["form"] == "number":
-                reg.modify(e["sym"], float(D.eval_gens(e["gens"])))
+                reg.modify(_sym(e, case), float(D.eval_gens(e["gens"])))
             elif e["form"] == "qdef":
-                reg.modify(e["sym"], unyt.unyt_quantity(coef, text))
+                reg.modify(_sym(e, case), unyt.unyt_quantity(coef, text))
             else:
-                reg.modify(e["sym"], unyt.unyt_quantity(coef, text, registry=reg))
+                reg.modify(_sym(e, case), unyt.unyt_quantity(coef, text, registry=reg))
         else:
             raise ValueError("unknown op " + str(e["op"]))
         return {"ok": True, "exc": ""}
@@ -138,4 +143,4 @@ def observe(U, case):
                 routes.append({"n": name, "ok": True, "e": max(err_units(a, want, tol)[0], err_units(b, want, tol)[0]), "exc": "", "got": repr(a)})
         rec.update(accepted=True, exc="", routes=routes, s1=repr(float(u1.base_value)), s2=repr(float(u2.base_value)), want=mpmath.nstr(want, 17))
         pairs.append(rec)
-    return {"kind": "reg", "sys": case["sys"], "h": ev, "probes": probes, "pairs": pairs}
+    return {"kind": "reg", "uk": case.get("uk", 0), "uname": case.get("uname", "foo"), "sys": case["sys"], "h": ev, "probes": probes, "pairs": pairs}
